@@ -82,7 +82,13 @@ func FindMajority(quorum, threshold uint, set ...uint) int {
 		return set[i] > set[j]
 	})
 
-	if quorum-sum+set[0] < th {
+	// votes which are not counted yet; more votes than quorum leaves nothing.
+	var missing uint
+	if sum < quorum {
+		missing = quorum - sum
+	}
+
+	if missing+set[0] < th {
 		return -2
 	}
 
